@@ -90,7 +90,14 @@ def run(P: Program, R: Report, tier: str) -> None:
                 isinstance(st, ast.Assign) and isinstance(st.targets[0], ast.Name) and norm(st.value) in (f"list({p_})" for p_ in f.params)):
                 work = st.targets[0].id
         if work is None:
-            R.fail("R17.6", f, f.node, f"{f.name} works on a copy of the incoming column list", "no copy of the incoming list is made: leftovers cannot be tracked")
+            rets_ = [r_ for r_ in ast.walk(f.node) if isinstance(r_, ast.Return) and r_.value is not None]
+            filtered = rets_ and all(isinstance(r_.value, (ast.ListComp, ast.GeneratorExp)) and norm(r_.value.generators[0].iter).replace("enumerate(", "").rstrip(")") in f.params
+                                     and r_.value.generators[0].ifs for r_ in rets_)
+            if filtered:
+                R.undecided("R17.6", f, f.node, f"{f.name} works on a copy of the incoming column list",
+                            "the leftovers are returned as a filtered view of the incoming list: the consume/assign pairing of this step is not followed")
+            else:
+                R.fail("R17.6", f, f.node, f"{f.name} works on a copy of the incoming column list", "no copy of the incoming list is made: leftovers cannot be tracked")
             continue
         accs = {st.target.id if isinstance(st, ast.AnnAssign) else st.targets[0].id for st in ast.walk(f.node)
                 if (isinstance(st, ast.AnnAssign) and isinstance(st.target, ast.Name) and isinstance(st.value, ast.Dict) and not st.value.keys)
@@ -165,6 +172,14 @@ def run(P: Program, R: Report, tier: str) -> None:
                 extra = [[x for x in guards_of(f, x_[0]) if x not in gr] for x_ in srcs]
                 ok = any(not e for e in extra) or (len(extra) == 2 and len(extra[0]) == 1 and len(extra[1]) == 1 and (
                     extra[0][0] == f"not ({extra[1][0]})" or extra[1][0] == f"not ({extra[0][0]})" or _complement(extra[0][0], extra[1][0])))
+            if not ok:
+                handed = [c_ for c_ in ast.walk(f.node) if isinstance(c_, ast.Call) and isinstance(c_.func, ast.Name) and c_.func.id.startswith("_")
+                          and any(norm(a_) == col for a_ in c_.args) and any(isinstance(a_, ast.Name) and (a_.id == mapping or a_.id in accs) for a_ in c_.args)
+                          and c_.lineno <= r.lineno]
+                if handed:
+                    R.undecided("R17.1", f, r, f"{f.name}: every removal from the working list follows a store of that column",
+                                f"the column is handed to `{handed[0].func.id}` together with the mapping: stores inside helpers are not followed")
+                    continue
             R.check(ok, "R17.1", f, r, f"{f.name}: every removal from the working list follows a store of that column",
                     f"`{norm(r)}` can remove a column that was not stored anywhere: it disappears from the inferred map", via="pairing")
         for a_ in accs:
@@ -218,9 +233,10 @@ def run(P: Program, R: Report, tier: str) -> None:
         name = f.name if f.name.startswith("infer") else "infer_*_name_map pipeline"
         steps = [st for st in ast.walk(f.node) if isinstance(st, ast.Assign) and isinstance(st.targets[0], ast.Name) and isinstance(st.value, ast.Call) and (call_name(st.value) or "").startswith("_match")]
         steps.sort(key=lambda st: st.lineno)
-        R.check(len(steps) == 4, "R17.4", f, f.node, f"{name} runs four matching steps", f"{len(steps)} found", via="syntax")
         if not steps:
+            R.undecided("R17.4", f, f.node, f"{name} runs four matching steps", "no `left = _match*(...)` statements: the pipeline is driven some other way, not followed")
             continue
+        R.check(len(steps) == 4, "R17.4", f, f.node, f"{name} runs four matching steps", f"{len(steps)} found", via="syntax")
         left = steps[0].targets[0].id
         mcallee0 = P.func_named(call_name(steps[0].value))
         m0 = steps[0].value.args[mcallee0.params.index("mapping")] if mcallee0.params.index("mapping") < len(steps[0].value.args) else None
